@@ -558,7 +558,7 @@ impl Accept {
 //@end
 
 
-//@extract file=actix-server/src/accept.rs item="impl Accept / fn accept_one" props=C01,C04,C08
+//@extract file=actix-server/src/accept.rs item="impl Accept / fn accept_one" props=C01,C04,C08 trace_calls="send_connection?"
 //@spec
     requires
         old(self).wf(),
@@ -586,12 +586,17 @@ impl Accept {
                   && (final(self).avail@ == old(self).avail@
                       || final(self).avail@ == old(self).avail@.remove(old(self).handles@[(old(self).next + steps) % (old(self).handles@.len() as int)].spec_idx()))
         },
-//@insert before="loop {"
+//@insert after="{"
         let ghost mut steps: int = 0;
         proof { vstd::arithmetic::div_mod::lemma_small_mod(self.next as nat, self.handles@.len() as nat); }
-//@insert after="loop {"
+//@insert loop_start=1
             let ghost avail0 = self.avail@;
             let ghost next0 = self.next as int;
+//@insert fn_end=1 guard
+        // (unreachable on the unchanged tree: the `loop` only leaves through `return`)
+        // the function does not end before a hand-over has succeeded (or the last worker is gone): an accepted
+        // connection is never dropped on the floor   [C01]
+        assert(r24_trace.len() > 0 && r24_trace.last() == 1int);   // [C01]
 //@insert after="if self.avail.get_available(idx) {"
                 proof {
                     lemma_mod_step(old(self).next + steps, old(self).handles@.len() as int);
